@@ -57,3 +57,14 @@ PROPS["C06"] = dict(
     design_ref="§6 C06",
     scope="all condition trees x all call histories x all 3-valued assignments",
 )
+
+PROPS["C10"] = dict(
+    groups=[],
+    lean_props=["SeaQ.Props.C10"],
+    lean_obligations=[],
+    technique="Lean 4 proof (invariant by induction over call histories) over a hand-written state-machine model of InsertStatement::columns/values/select_from/or_default_values and the branch structure of prepare_insert_statement; model tied by ALL call histories up to length 4/5 plus random longer ones against the real crate (outcomes, == after rejection, INSERT shape parsed back from the SQL on 3 backends)",
+    level_text="Machine-checked proof, for every state and every row, that values()/select_from() succeed iff the lengths match, that a mismatch returns the error with both counts and leaves the state unchanged, that accepted rows are appended in call order and rejected rows leave no trace, and — by induction over arbitrary call histories — that every stored row matches the column list unless columns() is re-declared with a different count over stored rows (that exception is a recorded finding: rect_counterexample, reproduced on the real crate each run).",
+    level_note="Trusted: Lean kernel; the hand-written model of the five builder calls and of the DEFAULT VALUES / VALUES / SELECT branch (modelled, not verified: tied exhaustively on all histories of length <= 4 (quick) / 5 (thorough) over 18 calls, on 3 backends); cells and columns are abstract ids. values_from_panic is values_panic repeated.",
+    design_ref="§6 C10",
+    scope="all call histories, all row lengths; full rectangularity only under NoRecount (finding)",
+)
